@@ -28,8 +28,9 @@ consistently):
 * *Nested selections* (only a descent can select a location inside another selected location): "Get at
   each selected location returns the new value" is demanded of the outermost selected locations (the
   inner ones no longer exist, or lie inside the new value).
-* *The One forms* change at most one location: the result is the input, or the input edited at one
-  selected (or one created) location.
+* *The One forms* change at most one location and do what the all-matches form does at one of them: the
+  result is the input edited at one selected (or one created) location; the input itself only when nothing
+  is selected or to be created (`OneOK`).
 * *Errors.* Which requests are impossible is not specified; whatever is reported as an error must leave
   everything outside the selected and created locations as it was (`frame`).
 * `valAt` of a location below an array element counts positions in the tree it is applied to; for
@@ -328,10 +329,15 @@ def single (p : Path) (d : JV) : Op → JV
 /-- frame: every location that is not at, above or below a location of `T` holds what it held -/
 def Frame (T : List Path) (d d' : JV) : Prop := ∀ q, touched T q = false → valAt q d' = valAt q d
 
-/-- what the property demands of the tree `d'` a One form leaves: nothing changed, or the edit of one
-selected location, or (Set) one created member -/
+/-- what the property demands of the tree `d'` a One form leaves: the edit of ONE selected location, or (Set) one
+created member; the tree as it was only when nothing is selected (and, for Set, nothing is to be created).
+*Formalisation choice*: "the One forms change at most one location" is read together with their purpose — they do what
+the all-matches form does at one of the selected locations: a One form that stops without an edit although a location
+is selected contradicts it (the edit itself may be the identity: a modifier that reports no change, a value that is
+already there). -/
 def OneOK (x : List Frag) (d d' : JV) (op : Op) : Prop :=
-  d' = d ∨ (∃ p ∈ locs x d, d' = single p d op) ∨
+  (locs x d = [] ∧ (match op with | .set v => creates v x d = [] | _ => True) ∧ d' = d) ∨
+    (∃ p ∈ locs x d, d' = single p d op) ∨
     match op with
     | .set v => ∃ c ∈ creates v x d, d' = insAll [c] d
     | _ => False
